@@ -54,28 +54,48 @@ class Server:
         self.dir = workdir
         self.extra_args = list(extra_args)
 
+    _counter = [0]
+
     def start(self):
-        for attempt in range(8):
-            s = socket.socket()
-            s.bind(('localhost', 0))
-            port = s.getsockname()[1]
-            s.close()
-            pf = os.path.join(self.dir, 'plan.json')
+        # Ports are derived from the process id: the shards (separate processes) can never pick the same port.
+        # (Asking the kernel for a free port raced between shards: a shard then talked to another shard's server.)
+        for attempt in range(12):
+            Server._counter[0] += 1
+            port = 15000 + (os.getpid() * 31 + Server._counter[0] * 7) % 45000
+            try:
+                probe = socket.socket()
+                probe.setsockopt(socket.SOL_SOCKET, socket.SO_REUSEADDR, 1)
+                probe.bind(('localhost', port))
+                probe.close()
+            except OSError:
+                continue
+            # every server instance has its own plan file: two servers never share proofreader settings
+            pf = os.path.join(self.dir, 'plan-%d.json' % port)
+            self.plan_file = pf
+            if os.path.exists(os.path.join(self.dir, 'plan.json')):
+                import shutil
+                shutil.copy(os.path.join(self.dir, 'plan.json'), pf)
+            else:
+                with open(pf, 'w') as f:
+                    f.write('{"mode": "flag_words", "words": []}')
             self.proc = subprocess.Popen(
                 [sut.PYTHON, '-B', '-m', 'yalafi.shell', '--no-config', '--as-server', str(port),
                  '--lt-command', '/usr/bin/python3 -S %s %s' % (sut.FAKELT, pf)] + self.extra_args,
                 cwd=self.dir, env=sut.sub_env(), stdout=subprocess.DEVNULL, stderr=subprocess.DEVNULL)
-            for _ in range(100):
+            for _ in range(150):
                 time.sleep(0.1)
                 if self.proc.poll() is not None:
                     break
                 try:
                     c = socket.create_connection(('localhost', port), timeout=1)
                     c.close()
-                    self.port = port
-                    return True
                 except OSError:
                     continue
+                time.sleep(0.2)
+                if self.proc.poll() is None:        # it is our process that listens
+                    self.port = port
+                    return True
+                break
             self.stop()
         return False
 
@@ -202,7 +222,7 @@ def run_case(ctx, src, flagged, workdir, server, extra_args=(), nt=False, family
     if server is not None and family in ('single', 'compound'):
         rc = {'src': src, 'flagged': flagged, 'mode': 'server'}
         with watchdog(150):
-            sut_plan = os.path.join(workdir, 'plan.json')
+            sut_plan = server.plan_file
             with open(sut_plan, 'w', encoding='utf-8') as f:
                 json.dump(plan, f, ensure_ascii=False)
             tex = src if src.endswith('\n') else src + '\n'
@@ -302,12 +322,20 @@ def run_shard(ctx):
             for k in range(rnd.randint(3, 9)):
                 nw += 1
                 core = ''.join('abcdefghij'[int(dd)] for dd in '%03d' % nw)
-                kind = rnd.choice(['plain', 'accent', 'group', 'comment', 'plain', 'emph-inside'])
+                kind = rnd.choice(['plain', 'accent', 'group', 'comment', 'plain', 'emph-inside', 'escaped'])
+                if kind == 'escaped' and any(c[0] in ('&', '%') for c in cands):
+                    kind = 'plain'
                 pre = ''
                 if kind == 'plain':
                     stxt, ptxt = 'W' + core + 'q', 'W' + core + 'q'
                 elif kind == 'accent':
                     stxt, ptxt = 'W' + core[:2] + '\\"o' + core[2:] + 'q', 'W' + core[:2] + '\u00f6' + core[2:] + 'q'
+                elif kind == 'escaped':
+                    # a match on the single character of an escaped special maps to its backslash
+                    ch = rnd.choice('&%')
+                    pre, stxt, ptxt = 'x ', '\\' + ch, ch
+                    if ch in src.replace('\\' + ch, ''):
+                        ch = None
                 elif kind == 'group':
                     pre, stxt, ptxt = '\\emph{', 'W' + core[:2] + '}' + core[2:] + 'q', 'W' + core + 'q'
                 elif kind == 'emph-inside':
@@ -315,8 +343,11 @@ def run_shard(ctx):
                 else:
                     stxt, ptxt = 'W' + core[:2] + '%\n' + core[2:] + 'q', 'W' + core + 'q'
                 src += pre
-                cands.append((ptxt, len(src), len(stxt)))
-                src += stxt + rnd.choice([' ', ' ', '\n', ' und ', '.\n'])
+                if kind == 'escaped':
+                    cands.append((ptxt, len(src), 1))
+                else:
+                    cands.append((ptxt, len(src), len(stxt)))
+                src += stxt + rnd.choice([' ', ' ', '\n', ' und ', '.\n', ' \u2028 ', ' \u2028', ' \\textbf{fett} '])
             src += '\n'
             flagged = rnd.sample(cands, rnd.randint(1, min(4, len(cands))))
             run_case(ctx, src, flagged, d, server, extra_args=['--language', 'en-GB'], nt=len(flagged) >= 2 and any(t[2] != len(t[0]) for t in flagged),
@@ -328,9 +359,7 @@ def run_shard(ctx):
             doc, rthr = args
             fl, thresh, babel = doc
             m = c12.M('en-GB')
-            if babel:
-                m.src += '\\usepackage[%s]{babel}\n' % babel
-                m.stack[-1] = c12.LM[babel]
+            c12.apply_babel(m, babel)
             c12.rend(m, fl, True)
             src = m.src + '\n'
             if not m.words:
